@@ -47,7 +47,20 @@ pub enum Op {
     Close { n: usize, h: usize },
     Status { n: usize, h: usize },
     Drop { n: usize },
-    Set { n: usize, h: usize, a: usize, key: Vec<u8>, c: usize, dt: u64 },
+    /// `shape`: 0 = proper content, 1 = the empty hash with a length, 2 = a content hash with length 0;
+    /// `bytes`: through `set_bytes` (the node hashes the content itself) instead of `set_hash`
+    Set {
+        n: usize,
+        h: usize,
+        a: usize,
+        key: Vec<u8>,
+        c: usize,
+        dt: u64,
+        #[serde(default)]
+        shape: u8,
+        #[serde(default)]
+        bytes: bool,
+    },
     Del { n: usize, h: usize, a: usize, key: Vec<u8>, dt: u64 },
     GetExact { n: usize, h: usize, a: usize, key: Vec<u8>, incl: bool },
     GetMany { n: usize, h: usize, q: Q },
@@ -102,6 +115,8 @@ fn err_kind(e: &anyhow::Error) -> String {
         "err:not-found".into()
     } else if s.contains("newer entry") {
         "notinserted".into()
+    } else if s.contains("empty entry") {
+        "err:entry-is-empty".into()
     } else {
         format!("err:{s}")
     }
@@ -196,8 +211,8 @@ impl Property for ApiNode {
                 Op::AuthorImport { a: 0 },
                 Op::Import { n: 0, write: true },
                 Op::Subscribe { n: 0, h: 0 },
-                Op::Set { n: 0, h: 0, a: 0, key: k("a"), c: 0, dt: 1 },
-                Op::Set { n: 0, h: 0, a: 0, key: k("ab"), c: 1, dt: 1 },
+                Op::Set { n: 0, h: 0, a: 0, key: k("a"), c: 0, dt: 1, shape: 0, bytes: false },
+                Op::Set { n: 0, h: 0, a: 0, key: k("ab"), c: 1, dt: 1, shape: 0, bytes: false },
                 Op::Del { n: 0, h: 0, a: 0, key: k("a"), dt: 1 },
                 Op::GetMany { n: 0, h: 0, q: Q { kind: 0, author: None, kf: Kf::Any, limit: None, offset: 0, incl: true, desc: false } },
                 Op::Hashes,
@@ -209,9 +224,9 @@ impl Property for ApiNode {
                 Op::StartSync { n: 0, h: 0 },
                 Op::Status { n: 0, h: 0 },
                 Op::Close { n: 0, h: 0 },
-                Op::Set { n: 0, h: 0, a: 0, key: k("b"), c: 2, dt: 1 },
+                Op::Set { n: 0, h: 0, a: 0, key: k("b"), c: 2, dt: 1, shape: 0, bytes: false },
                 Op::Open { n: 0 },
-                Op::Set { n: 0, h: 0, a: 0, key: k("b"), c: 2, dt: 1 },
+                Op::Set { n: 0, h: 0, a: 0, key: k("b"), c: 2, dt: 1, shape: 0, bytes: false },
                 Op::Leave { n: 0, h: 0 },
                 Op::Drop { n: 0 },
                 Op::Hashes,
@@ -262,8 +277,8 @@ impl Property for ApiNode {
                 Op::AuthorDefault,
                 Op::AuthorList,
                 Op::Create,
-                Op::Set { n: 3, h: 0, a: 3, key: k("x"), c: 0, dt: 1 },
-                Op::Set { n: 3, h: 0, a: 1, key: k("x"), c: 0, dt: 0 },
+                Op::Set { n: 3, h: 0, a: 3, key: k("x"), c: 0, dt: 1, shape: 0, bytes: false },
+                Op::Set { n: 3, h: 0, a: 1, key: k("x"), c: 0, dt: 0, shape: 0, bytes: false },
                 Op::Share { n: 3, h: 0, write: true },
                 Op::Status { n: 3, h: 0 },
             ]),
@@ -289,7 +304,7 @@ impl Property for ApiNode {
                 6 => Op::Close { n, h },
                 7 => Op::Status { n, h },
                 8..=9 => Op::Drop { n },
-                10..=16 => Op::Set { n, h, a, key: gen_key(rng), c: rng.below(3), dt },
+                10..=16 => Op::Set { n, h, a, key: gen_key(rng), c: rng.below(3), dt, shape: if rng.chance(1, 8) { 1 + rng.below(2) as u8 } else { 0 }, bytes: rng.chance(1, 4) },
                 17..=18 => Op::Del { n, h, a, key: gen_key(rng), dt },
                 19 => Op::GetExact { n, h, a, key: gen_key(rng), incl: rng.chance(1, 2) },
                 20..=22 => Op::GetMany { n, h, q: gen_q(rng) },
@@ -541,21 +556,47 @@ impl ApiNode {
                         // is not there
                     }
                 }
-                Op::Set { n, h, a, key, c, dt } => {
+                Op::Set { n, h, a, key, c, dt, shape, bytes } => {
                     let (n, doc) = pick_doc!(n, h);
                     let a = *a % authors.len();
                     clock = if *dt == u64::MAX { clock.saturating_sub(3).max(1) } else { clock + dt };
                     iroh_docs::verif::set_clock_micros(Some(clock));
-                    let (hash, len) = content(*c);
+                    let data = format!("content-{c}");
+                    let (hash, len) = if *bytes {
+                        // `set_bytes`: an empty value is the one half-empty shape it can express
+                        if *shape == 0 { content(*c) } else { (iroh_blobs::Hash::EMPTY, 0) }
+                    } else {
+                        match shape {
+                            0 => content(*c),
+                            1 => (iroh_blobs::Hash::EMPTY, 5),
+                            _ => (content(*c).0, 0),
+                        }
+                    };
                     let t = tok(&slots[n].id, &authors[a].id(), key, clock, len, &hash);
-                    let out = match doc.set_hash(authors[a].id(), key.clone(), hash, len).await {
+                    let res = if *bytes {
+                        let value: Vec<u8> = if *shape == 0 { data.into_bytes() } else { vec![] };
+                        match doc.set_bytes(authors[a].id(), key.clone(), value).await {
+                            Ok(h) => {
+                                if h != hash {
+                                    unexpected.push("set_bytes returned another hash than the content's".into());
+                                }
+                                Ok(())
+                            }
+                            Err(e) => Err(e),
+                        }
+                    } else {
+                        doc.set_hash(authors[a].id(), key.clone(), hash, len).await
+                    };
+                    let out = match res {
                         Ok(()) => "inserted".to_string(),
                         Err(e) => err_kind(&e),
                     };
                     let ev = collect_events(&mut subs, n, out == "inserted", &t, &mut unexpected).await;
-                    lines.push(Line::model(format!("node 1 setq {t}"), format!("{out} events={ev}")));
+                    lines.push(Line::model(format!("node 1 insertq {t}"), format!("{out} events={ev}")));
                     if out == "inserted" {
                         lines.push(Line::oracle(format!("nhist 1 wrote {t}"), "ok"));
+                        // C03 / C04: what every other replica would refuse is never authored
+                        lines.push(Line::oracle("expect wellformed-local-write", if *shape == 0 { "wellformed-local-write" } else { "half-empty-entry-authored" }));
                     }
                 }
                 Op::Del { n, h, a, key, dt } => {
